@@ -72,6 +72,14 @@ OPS = [(r"(?<![<>=!-])<(?![<=])", "<="), (r"<=", "<"), (r"(?<![<>=!-])>(?![>=])"
        (r"&&", "||"), (r"\|\|", "&&"), (r"\+ 1\b", "+ 0"), (r"- 1\b", "- 0"), (r"\btrue\b", "false"), (r"\bfalse\b", "true"), (r"if !", "if ")]
 
 
+# file-level targets: every function of the file (outside `mod tests`), judged by ALL Engine-M obligations
+FILE_TARGETS = {
+    "F1": "src/blob/core.rs", "F2": "src/storage/core.rs", "F3": "src/blob/index/core.rs", "F4": "src/blob/index/bptree/core.rs",
+    "F5": "src/storage/observer_worker.rs", "F6": "src/filter/hierarchical.rs", "F7": "src/io/unix/sync.rs", "F8": "src/blob/entry.rs",
+    "F9": "src/record/record.rs",
+}
+
+
 def fn_ranges(text, name):
     """line ranges (0-based, inclusive) of every `fn name` body in the file"""
     lines = text.split("\n")
@@ -91,9 +99,18 @@ def fn_ranges(text, name):
 
 def sites():
     res = []
-    for pid, targets in TARGETS.items():
-        for f, fn in targets:
+    allt = [(pid, f, fn) for pid, targets in TARGETS.items() for f, fn in targets]
+    for pid, f in FILE_TARGETS.items():
+        text = open(os.path.join("/repo", f), newline="").read()
+        cut = text.find("mod tests")
+        names = sorted(set(re.findall(r"\bfn (\w+)", text[:cut] if cut > 0 else text)))
+        allt += [(pid, f, fn) for fn in names]
+    for pid, f, fn in allt:
+        if True:
             text = open(os.path.join("/repo", f), newline="").read()
+            cut = text.find("mod tests")
+            if cut > 0:
+                text = text[:cut]
             lines = text.split("\n")
             for (a, b) in fn_ranges(text, fn):
                 for ln in range(a + 1, b + 1):
@@ -137,7 +154,18 @@ def run_one(mt, crate_cache={}):
     crate = P.Crate(open(os.path.join(work, "pearl.mir")).read(), src)
     out = {}
     verdict = "missed"
-    for o in props.PROPS[mt["pid"].rstrip("bcd")].get("mir", []):
+    if mt["pid"].startswith("F"):
+        seen, obs = set(), []
+        for pid_, p_ in props.PROPS.items():
+            for o_ in p_.get("mir", []):
+                k_ = (o_["module"], o_["func"])
+                if k_ not in seen and o_.get("tier", "quick") == "quick":
+                    seen.add(k_); obs.append(o_)
+        slow = ("push_step", "read_all_merge", "hier_no_false_negative", "len_counts_live", "partition_agree", "recovery_copies_prefix", "leaf_packing", "latest_entry_fold")
+        obs.sort(key=lambda o_: (o_["func"] in slow, o_["func"]))
+    else:
+        obs = props.PROPS[mt["pid"].rstrip("bcd")].get("mir", [])
+    for o in obs:
         if o.get("tier", "quick") != "quick":
             continue
         kw = dict(o.get("kwargs", {}))
